@@ -248,7 +248,7 @@ UNITS['backend'] = dict(
         'c09_pending_drain': dict(props=['C09']),
         'c11_close': dict(props=['C11']),
         'c11_poll_pending': dict(props=['C11', 'C09']),
-        'c12_add_signal_accepted': dict(props=['C12'], panic_map=[(r'Init called multiple times', 'C12.RETRY')]),
+        'c12_retry_raw': dict(props=['C12'], tier='thorough', kind='bounded', bound='bounded(one representative accepted signal, SIGUSR1, on the real 128-entry table)', panic_map=[(r'Init called multiple times', 'C12.RETRY')]),
         'c12_add_signal_rejected': dict(props=['C12', 'C14'], expected_panics=r'index out of bounds|assertion failed: signal >= 0|Signal number .* too large|placeholder message'),
     })
 # control-flow harnesses on a scratch copy with the slot table shortened (mechanical rewrite, stated)
@@ -258,6 +258,9 @@ UNITS['backend_small'] = dict(
     rewrite=[('src/iterator/backend.rs', r'const MAX_SIGNUM: usize = 128;', 'const MAX_SIGNUM: usize = 4;', 1)],
     scan=[K + 'libc_model.rs'], timeout={'quick': 1500, 'thorough': 3600},
     harnesses={
+        'c12_add_and_drop': dict(props=['C12'], kind='bounded', bound=_SMALL),
+        'c12_retry_raw_small': dict(props=['C12'], kind='bounded', bound=_SMALL, panic_map=[(r'Init called multiple times', 'C12.RETRY')]),
+        'c12_ctor_clean': dict(props=['C12'], kind='bounded', bound=_SMALL),
         'c11_poll_signal_idle_f': dict(props=['C11', 'C09', 'C10'], kind='bounded', bound=_SMALL),
         'c11_poll_signal_idle_e': dict(props=['C11', 'C09', 'C10'], kind='bounded', bound=_SMALL),
         'c11_poll_signal_idle_tf': dict(props=['C11', 'C09', 'C10'], kind='bounded', bound=_SMALL),
@@ -303,5 +306,30 @@ PROPS['C10'] = dict(level='proof', units=['backend', 'backend_small'], trusted=_
     explanation='Per-operation contracts: a delivery only sets its own slot; load clears atomically and echoes the slot index; next() yields exactly the first marked slot.')
 PROPS['C11'] = dict(level='proof', units=['backend', 'backend_small'], trusted=_TI + ['a blocked reader returns because close() writes a wake-up byte (kernel semantics)', 'callback answers true at most once per call in the harness (bounded)'],
     explanation='closed flag havoc-ed monotonically before every load (close() on another thread at any instant); sticky flag, close-then-wake, no callback after closed, Pending only if armed.')
-PROPS['C12'] = dict(level='proof', units=['backend'], trusted=_TI,
+obl('C12.CTOR-CLEAN', FB + 'SignalDelivery::with_pipe', 'first refused signal => Err; earlier registrations unregistered; (native) pipe descriptors closed')
+obl('C12.SURVIVES-PANIC', FB + 'Handle::add_signal', 'after an addition rejected by panic (9 representative inputs): later add_signal Ok, re-add no-op, watched signals still delivered', kind='bounded(native execution, 9 inputs: -1, MIN, 128, MAX, KILL, STOP, ILL, FPE, SEGV)')
+obl('C12.DROP-NO-PANIC', FB + 'DeliveryState::drop', 'drop after a rejected addition does not panic', kind='bounded(native execution, same 9 inputs)')
+obl('C12.RETRY-NATIVE', FB + 'Handle::add_signal + WithRawSiginfo::init', 'real OS refusal (signal 100) twice in a row returns Err twice', kind='bounded(native execution, 1 input)')
+UNITS['native_c12'] = dict(name='c12_survive', engine='static', module='native_unit', entry='run_native', source='/verif/native/c12_survive.rs',
+                           deps='libc = "0.2"\nsignal-hook = { path = ".." }\n')
+PROPS['C12'] = dict(level='other', units=['backend', 'backend_small', 'native_c12'], trusted=_TI + ['Kani cannot unwind: state after a caught panic is decided by native execution on 9 representative rejected inputs (bounded), not proved for all c_int'],
+    technique='function contracts on add_signal/with_pipe/DeliveryState::drop (Kani) + native execution stand-in for post-panic state',
     explanation='add_signal over all accepted c_int with the registry answering Ok/Err nondeterministically, twice in a row; teardown unregisters exactly what was registered.')
+
+# --------------------------------------------------------------------------------------------
+_MAPRW = [('signal-hook-registry/src/lib.rs', r'use std::collections::hash_map::Entry;', '#[cfg(not(kani))] use std::collections::hash_map::Entry;\n#[cfg(kani)] use verif_kani::Entry;', 1),
+          ('signal-hook-registry/src/lib.rs', r'use std::collections::\{BTreeMap, HashMap\};', 'use std::collections::BTreeMap;\n#[cfg(not(kani))] use std::collections::HashMap;\n#[cfg(kani)] use verif_kani::SmallMap as HashMap;', 1)]
+UNITS['registry'] = dict(
+    name='registry', engine='kani', crate='signal-hook-registry', inject=[('signal-hook-registry/src/lib.rs', K + 'registry.rs')], flags=FFI,
+    rewrite=_MAPRW, scan=[K + 'libc_model.rs'], timeout={'quick': 1500, 'thorough': 3600},
+    harnesses={
+        'c04_prev_execute': dict(props=['C04']),
+        'c05_slot_new': dict(props=['C05', 'C04', 'C14']),
+        'c14_registry_check_first': dict(props=['C14'], expected_panics=r'Attempted to register forbidden signal|placeholder message|assertion failed'),
+        'c14_forbidden_list': dict(props=['C14']),
+        'c14_err_no_publish': dict(props=['C14']),
+        'c05_history': dict(props=['C05', 'C02']),
+        'c05_unregister_signal': dict(props=['C05']),
+        'c04_chain': dict(props=['C04']),
+        'c04_window': dict(props=['C04']),
+    })
